@@ -15,6 +15,6 @@ CONSTANTS
   KnownDefects <- KD123
   Log <- LogLast
 CONSTRAINT HighWater
-INVARIANTS Inv_C09_SafetyObsClean Inv_C09_GcUnexplained Inv_C10_CompleteUnexplained
+INVARIANTS Inv_C09_SafetyObsClean Inv_C09_GcUnexplained Inv_C10_CompleteUnexplainedT
 POSTCONDITION Accepted
 CHECK_DEADLOCK FALSE
